@@ -293,7 +293,9 @@ func diffSets(got, want []string) (extra, missing []string) {
 
 func (s *rSim) checkAll(after string) {
 	r := s.r
-	r.OracleEval()
+	if !s.c19 {
+		r.OracleEval()
+	}
 	c := s.cache
 	md := s.model
 
@@ -304,7 +306,7 @@ func (s *rSim) checkAll(after string) {
 	}
 	sort.Strings(gotU)
 	if extra, missing := diffSets(gotU, sortedKeys(md.resvs)); len(extra)+len(missing) > 0 {
-		r.Fail("primary", "reservationInfos", "after %s: reservationInfos holds %v, expected %v (extra %v missing %v)", after, gotU, sortedKeys(md.resvs), extra, missing)
+		s.fail("primary", "reservationInfos", "after %s: reservationInfos holds %v, expected %v (extra %v missing %v)", after, gotU, sortedKeys(md.resvs), extra, missing)
 	}
 
 	// 2. ledger of every reservation
@@ -312,7 +314,7 @@ func (s *rSim) checkAll(after string) {
 		ri := c.reservationInfos[types.UID(u)]
 		m := md.resvs[u]
 		if ri == nil {
-			r.Fail("primary", "nil-info", "after %s: reservationInfos[%s] is nil", after, u)
+			s.fail("primary", "nil-info", "after %s: reservationInfos[%s] is nil", after, u)
 		}
 		var gotP []string
 		for pu := range ri.AssignedPods {
@@ -324,7 +326,7 @@ func (s *rSim) checkAll(after string) {
 			if len(missing) > 0 {
 				d = "missing"
 			}
-			r.Fail("assigned-pods", d, "after %s: reservation %s AssignedPods=%v, the pods assigned to it are %v", after, u, gotP, sortedKeys(m.assigned))
+			s.fail("assigned-pods", d, "after %s: reservation %s AssignedPods=%v, the pods assigned to it are %v", after, u, gotP, sortedKeys(m.assigned))
 		}
 		wantDims := m.snap.dims()
 		var gotDims []string
@@ -333,7 +335,7 @@ func (s *rSim) checkAll(after string) {
 		}
 		sort.Strings(gotDims)
 		if strings.Join(gotDims, ",") != strings.Join(wantDims, ",") {
-			r.Fail("reserved-dims", "", "after %s: reservation %s ResourceNames=%v, its reserved dimensions are %v", after, u, gotDims, wantDims)
+			s.fail("reserved-dims", "", "after %s: reservation %s ResourceNames=%v, its reserved dimensions are %v", after, u, gotDims, wantDims)
 		}
 		gotA, exact := fromRL(ri.Allocated)
 		wantA := m.expectedAllocated()
@@ -355,16 +357,16 @@ func (s *rSim) checkAll(after string) {
 			if eqRL(gotA, stored) {
 				detail = "stale-pod-requests"
 			}
-			r.Fail("allocated", detail, "after %s: reservation %s Allocated=%s but the assigned pods %v request %s in its reserved dimensions %v", after, u, fmtRL(gotA), sortedKeys(m.assigned), fmtRL(wantA), wantDims)
+			s.fail("allocated", detail, "after %s: reservation %s Allocated=%s but the assigned pods %v request %s in its reserved dimensions %v", after, u, fmtRL(gotA), sortedKeys(m.assigned), fmtRL(wantA), wantDims)
 		}
 		gotAl, _ := fromRL(ri.Allocatable)
 		if !eqRL(gotAl, m.snap.Alloc) {
-			r.Fail("allocatable", "", "after %s: reservation %s Allocatable=%s, the object reserves %s", after, u, fmtRL(gotAl), fmtRL(m.snap.Alloc))
+			s.fail("allocatable", "", "after %s: reservation %s Allocatable=%s, the object reserves %s", after, u, fmtRL(gotAl), fmtRL(m.snap.Alloc))
 		}
 		gotR, _ := fromRL(ri.Reserved)
 		for _, d := range wantDims {
 			if gotR[d] != m.snap.Inner[d] {
-				r.Fail("inner-reserved", "", "after %s: reservation %s Reserved=%s, the object declares %s", after, u, fmtRL(gotR), fmtRL(m.snap.Inner))
+				s.fail("inner-reserved", "", "after %s: reservation %s Reserved=%s, the object declares %s", after, u, fmtRL(gotR), fmtRL(m.snap.Inner))
 			}
 		}
 	}
@@ -412,7 +414,7 @@ func (s *rSim) checkAll(after string) {
 			want = sortedKeys(wantMatch)
 		}
 		if strings.Join(got, ",") != strings.Join(want, ",") {
-			r.Fail("list-all-nodes", fmt.Sprintf("matchable=%v", mode), "after %s: ListAllNodes(%v)=%v, expected %v", after, mode, got, want)
+			s.fail("list-all-nodes", fmt.Sprintf("matchable=%v", mode), "after %s: ListAllNodes(%v)=%v, expected %v", after, mode, got, want)
 		}
 	}
 	for i := 0; i < s.cfg.Nodes; i++ {
@@ -428,7 +430,7 @@ func (s *rSim) checkAll(after string) {
 		})
 		sort.Strings(got)
 		if strings.Join(got, ",") != strings.Join(wantMatch[n], ",") {
-			r.Fail("enumeration", "", "after %s: ForEachMatchableReservationOnNode(%s) offers %v, the matchable reservations there are %v", after, n, got, wantMatch[n])
+			s.fail("enumeration", "", "after %s: ForEachMatchableReservationOnNode(%s) offers %v, the matchable reservations there are %v", after, n, got, wantMatch[n])
 		}
 	}
 }
@@ -460,14 +462,16 @@ func (s *rSim) checkIndex(after, name string, got map[string]map[types.UID]struc
 				}
 			}
 		}
-		s.r.Fail("index-"+name, detail, "after %s: %s[%s]=%v, expected %v (extra %v missing %v)", after, name, n, g, want[n], extra, missing)
+		s.fail("index-"+name, detail, "after %s: %s[%s]=%v, expected %v (extra %v missing %v)", after, name, n, g, want[n], extra, missing)
 	}
 }
 
 // checkQuiescent compares the cache with the API truth when every listener has caught up and nothing is in flight.
 func (s *rSim) checkQuiescent() {
 	r := s.r
-	r.OracleEval()
+	if !s.c19 {
+		r.OracleEval()
+	}
 	r.Probe("quiescent-check")
 	byUID := map[string]*sResv{}
 	for _, k := range sortedKeys(s.resvStream.idx) {
@@ -480,7 +484,7 @@ func (s *rSim) checkQuiescent() {
 		for _, n := range sortedKeys(idx) {
 			for _, u := range uidSet(idx[n]) {
 				if byUID[u] == nil {
-					r.Fail("quiescent-index", "references-deleted-reservation", "%s[%s] references %s which no longer exists (every listener has caught up)", name, n, u)
+					s.fail("quiescent-index", "references-deleted-reservation", "%s[%s] references %s which no longer exists (every listener has caught up)", name, n, u)
 				}
 			}
 		}
@@ -492,7 +496,7 @@ func (s *rSim) checkQuiescent() {
 	sort.Strings(infoU)
 	for _, u := range infoU {
 		if byUID[u] == nil {
-			r.Fail("quiescent-primary", "deleted-reservation-kept", "reservationInfos keeps %s which no longer exists (every listener has caught up)", u)
+			s.fail("quiescent-primary", "deleted-reservation-kept", "reservationInfos keeps %s which no longer exists (every listener has caught up)", u)
 		}
 	}
 	// every live reservation placed on a node is listed there
@@ -502,7 +506,7 @@ func (s *rSim) checkQuiescent() {
 			continue
 		}
 		if _, ok := c.reservationsOnNode[sn.Node][types.UID(u)]; !ok {
-			r.Fail("quiescent-index", "live-reservation-not-listed", "reservation %s is %s on %s but reservationsOnNode[%s]=%v", u, sn.Phase, sn.Node, sn.Node, uidSet(c.reservationsOnNode[sn.Node]))
+			s.fail("quiescent-index", "live-reservation-not-listed", "reservation %s is %s on %s but reservationsOnNode[%s]=%v", u, sn.Phase, sn.Node, sn.Node, uidSet(c.reservationsOnNode[sn.Node]))
 		}
 		if ri := c.reservationInfos[types.UID(u)]; ri != nil {
 			// the pods assigned to it, per the API
@@ -524,7 +528,7 @@ func (s *rSim) checkQuiescent() {
 				if len(missing) > 0 {
 					d = "missing"
 				}
-				r.Fail("quiescent-assigned", d, "reservation %s AssignedPods=%v, the bound live pods recorded as allocated from it are %v", u, got, want)
+				s.fail("quiescent-assigned", d, "reservation %s AssignedPods=%v, the bound live pods recorded as allocated from it are %v", u, got, want)
 			}
 		}
 	}
